@@ -25,6 +25,8 @@ where
     let rightbound = sbbox.max.x.min(cbbox.max.x);
 
     while let Some(event) = event_queue.pop() {
+        #[cfg(geo_booleanop_verif)]
+        super::verif::on_event_popped();
         #[cfg(feature = "debug-booleanop")]
         {
             println!("\n{{\"processEvent\": {}}}", event.to_json_debug());
